@@ -170,6 +170,9 @@ func checkCloseOnce(c *Ctx, rule string, f *ssa.Function, ch ssa.Value, chName s
 	countAlongPaths(f, func(i ssa.Instruction) bool { return isCloseOf(i, ch) }, func(i ssa.Instruction, before int) {
 		switch x := i.(type) {
 		case *ssa.Return:
+			if f.Recover != nil && x.Block() == f.Recover {
+				return // the synthetic exit after a recovered panic (a function with a defer): not a path of the code
+			}
 			if before != cnt1 {
 				bad = append(bad, fmt.Sprintf("return at %s is reached with close count %s", c.W.pos(x.Pos()), maskString(before)))
 			}
